@@ -51,6 +51,8 @@ type Program struct {
 	flat      map[*Func]*Func
 	// Opaque: helpers Flatten must keep as calls (set by the rules package)
 	Opaque func(*Func) bool
+	// OpaqueGeneral: helpers that may be inlined in the exact forms only, not in the general (labelled switch) form
+	OpaqueGeneral func(*Func) bool
 }
 
 // Load type-checks the library packages of the repository from source (their
